@@ -505,6 +505,9 @@ func (sc *linkScenario) Invariant(tx *bbolt.Tx, mm explore.Model) error {
 				if wc > 0 {
 					ws = fmt.Sprint(wc)
 				}
+				if single := sd.rc.GetLinkCount(tx, []byte(id), []byte(o)); i32s(single) != ws {
+					return fmt.Errorf("%s.GetLinkCount(%s,%s) = %s, model says %s", sd.name, id, o, i32s(single), ws)
+				}
 				if i32s(c1) != ws || i32s(c2) != ws {
 					return fmt.Errorf("%s.GetLinkCounts(%s,%s) = (%s,%s), model says %s on both sides", sd.name, id, o, i32s(c1), i32s(c2), ws)
 				}
